@@ -127,10 +127,8 @@ def runOp (op : String) (a : Attrs) (xs : Inputs) : R (List Tensor) :=
   | "Add" => bin (· + ·) xs
   | "Sub" => bin (· - ·) xs
   | "Mul" => bin (· * ·) xs
-  | "Div" => binGuard (fun y => y == 0) Int.tdiv xs
-  | "Mod" =>
-    if a.flag "fmod" false then binGuard (fun y => y == 0) Int.tmod xs
-    else binGuard (fun y => y == 0) Int.fmod xs
+  | "Div" => binGuard (fun y => y == 0) divI xs
+  | "Mod" => binGuard (fun y => y == 0) (modI (a.flag "fmod" false)) xs
   | "Pow" => binGuard (fun y => y < 0) powI xs
   | "Equal" => bin (fun x y => b2i (x == y)) xs
   | "Less" => bin (fun x y => b2i (x < y)) xs
@@ -150,9 +148,7 @@ def runOp (op : String) (a : Attrs) (xs : Inputs) : R (List Tensor) :=
     let x ← inp xs 0
     let lo ← match optInp xs 1 with | some t => do let v ← scalarVal t; pure (some v) | none => pure none
     let hi ← match optInp xs 2 with | some t => do let v ← scalarVal t; pure (some v) | none => pure none
-    pure [unop (fun v =>
-      let v1 := match lo with | some l => max v l | none => v
-      match hi with | some h => min v1 h | none => v1) x]
+    pure [unop (clipI lo hi) x]
   | "Min" => do let ts ← allPresent xs; let r ← variadic min ts; pure [r]
   | "Max" => do let ts ← allPresent xs; let r ← variadic max ts; pure [r]
   | "Sum" => do let ts ← allPresent xs; let r ← variadic (· + ·) ts; pure [r]
